@@ -2417,6 +2417,18 @@ class KmipEngine(object):
                             )
                             add_object = False
                             break
+                    elif name == "Sensitive":
+                        if value.value != attribute:
+                            self._logger.debug(
+                                "Failed match: "
+                                "the specified sensitive flag ({}) does not "
+                                "match the object's sensitive flag ({}).".format(
+                                    value.value,
+                                    attribute
+                                )
+                            )
+                            add_object = False
+                            break
                     elif name == enums.AttributeType.INITIAL_DATE.value:
                         initial_date["value"] = attribute
                         self._track_date_attributes(
